@@ -301,15 +301,23 @@ pub fn record_geometry(output: &str) {
     let mut out = Out::create(output);
     let mut r = rng(1010);
     let n = if thorough() { 1500 } else { 220 };
-    let kin = robot();
     let mut last_q0: Joints = [0.0; 6];
     for k in 0..n {
-        let pools = pools_for(k, if thorough() { 5 } else { 3 });
+        // (the cases at the joint vector of the preceding case ask first on the recording thread itself, where the
+        //  preceding robot was asked last)
+        let mut pools = pools_for(k, if thorough() { 5 } else { 3 });
+        if k % 4 == 3 { pools.insert(0, 0); }
         // every second case asks through a tool wrapper (any transform): a tool does not move the links, so the bodies
         // are still where the bare robot's link poses put them (the scene and the brute-force distances use those)
+        // (the cases that stand at the joint vector of the preceding case do so on a robot that stands elsewhere, on a
+        //  turned and displaced base: where the links are is a matter of the robot that is asked)
+        let inner: std::sync::Arc<dyn Kinematics> = if k % 4 == 3 {
+            std::sync::Arc::new(rs_opw_kinematics::tool::Base { robot: std::sync::Arc::new(robot()), base: Isometry3::new(nalgebra::Vector3::new(r.gen_range(-1.0..1.0), r.gen_range(-1.0..1.0), r.gen_range(-0.3..0.3)), nalgebra::Vector3::new(0.0, 0.0, r.gen_range(-2.0..2.0))) })
+        } else { std::sync::Arc::new(robot()) };
+        let kin_here: &dyn Kinematics = inner.as_ref();
         let tooled: Box<dyn Kinematics> = if k % 2 == 1 {
-            Box::new(rs_opw_kinematics::tool::Tool { robot: std::sync::Arc::new(robot()), tool: Isometry3::new(nalgebra::Vector3::new(r.gen_range(-0.2..0.2), r.gen_range(-0.2..0.2), r.gen_range(0.0..0.3)), nalgebra::Vector3::new(r.gen_range(-1.0..1.0), r.gen_range(-1.0..1.0), r.gen_range(-1.0..1.0))) })
-        } else { Box::new(robot()) };
+            Box::new(rs_opw_kinematics::tool::Tool { robot: inner.clone(), tool: Isometry3::new(nalgebra::Vector3::new(r.gen_range(-0.2..0.2), r.gen_range(-0.2..0.2), r.gen_range(0.0..0.3)), nalgebra::Vector3::new(r.gen_range(-1.0..1.0), r.gen_range(-1.0..1.0), r.gen_range(-1.0..1.0))) })
+        } else { Box::new(rs_opw_kinematics::tool::Tool { robot: inner.clone(), tool: Isometry3::identity() }) };
         let asked: &dyn Kinematics = tooled.as_ref();
         let case = make_case(&mut r, k);
         // (one case in four stands at the very joint vector of the preceding case: another body, the same joints)
@@ -323,8 +331,18 @@ pub fn record_geometry(output: &str) {
         let base_pose = Isometry3::new(nalgebra::Vector3::new(0.0, 0.0, -0.4), nalgebra::Vector3::new(0.0, 0.0, 0.3));
         for (mode_name, mode) in [("all", CheckMode::AllCollsions), ("first", CheckMode::FirstCollisionOnly), ("nocheck", CheckMode::NoCheck)] {
             if mode_name == "nocheck" && k % 10 != 0 { continue; }
-            let body = scene::build(&case.scene, &kin, &q0, &base_pose, safety_from(&tj, case.def_env_um, case.def_robot_um, mode));
-            let brute = scene::brute(&body, &kin, &q0);
+            let mut body = scene::build(&case.scene, kin_here, &q0, &base_pose, safety_from(&tj, case.def_env_um, case.def_robot_um, mode));
+            // one cell in three was asked once while its environment objects still stood ten metres away (and with all
+            // distances zero); they are then moved into place through their public pose field and the distances are set
+            if k % 3 == 2 && nenv > 0 {
+                let (poses, safety): (Vec<_>, _) = (body.collision_environment.iter().map(|e| e.pose).collect(), body.safety.clone());
+                for e in body.collision_environment.iter_mut() { e.pose.translation.vector.x += 10.0; }
+                body.safety.to_environment = 0.0;
+                let _ = guarded(|| (body.collides(&q0, asked), body.collision_details(&q0, asked)));
+                for (e, p) in body.collision_environment.iter_mut().zip(poses) { e.pose = p; }
+                body.safety = safety;
+            }
+            let brute = scene::brute(&body, kin_here, &q0);
             for &pool in &pools {
                 let base = json!({"ev": "collision", "pool": pool, "mode": mode_name, "tool": has_tool, "base": has_base, "nenv": nenv,
                     "table": tj, "def_env": case.def_env_um, "def_robot": case.def_robot_um, "pairs": pairs_json(&brute), "class": case.class, "case": k});
@@ -346,7 +364,7 @@ pub fn record_geometry(output: &str) {
                 // the check mode that counts is the one of the PASSED safety distances; the body's own differs
                 let own: Vec<(usize, usize, i64)> = case.table.iter().filter(|t| t.2 <= -1_000_000).cloned().collect();
                 let body_mode = match mode_name { "all" => [CheckMode::FirstCollisionOnly, CheckMode::NoCheck][(k / 2) % 2], "first" => CheckMode::AllCollsions, _ => CheckMode::AllCollsions };
-                let body2 = scene::build(&case.scene, &kin, &q0, &base_pose, safety_from(&table_json(&own), 0, 0, body_mode));
+                let body2 = scene::build(&case.scene, kin_here, &q0, &base_pose, safety_from(&table_json(&own), 0, 0, body_mode));
                 let custom = safety_from(&tj, case.def_env_um, case.def_robot_um, mode);
                 let rep = guarded(|| in_pool(4, || body2.near(&q0, asked, &custom)));
                 let mut e = json!({"ev": "collision", "pool": 4, "mode": mode_name, "tool": has_tool, "base": has_base, "nenv": nenv,
@@ -357,6 +375,8 @@ pub fn record_geometry(output: &str) {
                 }
                 out.put(e);
             }
+            // (every case ends with a question on the recording thread)
+            let _ = guarded(|| (body.collides(&q0, asked), body.collision_details(&q0, asked)));
         }
     }
     rx160_cases(&mut out, &mut r);
@@ -428,6 +448,7 @@ pub fn record_offsets(output: &str) {
     let n = if thorough() { 1200 } else { 240 };
     let mut made = 0;
     let mut tries = 0;
+    let mut last_vectors: Option<(Joints, Joints, Joints)> = None;
     while made < n && tries < n * 30 {
         tries += 1;
         let tool = tries % 4 != 3;
@@ -439,7 +460,14 @@ pub fn record_offsets(output: &str) {
         // limit representation classes: same arcs written as wrap-around ranges (from > to) on some joints
         if tries % 3 == 1 { for i in 0..6 { if r.gen_bool(0.4) { lim_from[i] += two_pi; } } }
         // (every second robot has its limits written in degrees)
+        // (every second robot has its limits written in degrees; one in six got them in two steps: constructed with
+        //  upper bounds that are half a radian too generous on some joints, then narrowed with update_range)
         let limits = if tries % 2 == 1 { Constraints::from_degrees(std::array::from_fn(|i| lim_from[i].to_degrees()..=lim_to[i].to_degrees()), BY_PREV) }
+                     else if tries % 6 == 2 {
+                         let mut c = Constraints::new(lim_from, std::array::from_fn(|i| lim_to[i] + if i % 2 == 0 { 0.5 } else { 0.0 }), BY_PREV);
+                         c.update_range(lim_from, lim_to);
+                         c
+                     }
                      else { Constraints::new(lim_from, lim_to, BY_PREV) };
         let plain = OPWKinematics::new_with_constraints(Parameters::irb2400_10(), limits);
         // every fourth robot is parallelogram coupled (J2 drives J3): the links behind a moved joint then do NOT move
@@ -468,6 +496,9 @@ pub fn record_offsets(output: &str) {
             let z = (j + 1 + r.gen_range(0..5)) % 6;
             if r.gen_bool(0.5) { from[z] = initial[z]; } else { to[z] = initial[z]; }
         }
+        // one case in five asks with the very vectors (initial, from, to) of the preceding case - another robot, other
+        // limits, another scene: what is offered is decided by the robot that is asked
+        if tries % 5 == 1 { if let Some((i0, f0, t0)) = last_vectors { initial = i0; from = f0; to = t0; } }
         let side_to = r.gen_bool(0.5);
         let mut cand = initial;
         cand[j] = if side_to { to[j] } else { from[j] };
@@ -520,6 +551,7 @@ pub fn record_offsets(output: &str) {
             if side_to { to[j] = hi; } else { from[j] = hi; }
         }
         made += 1;
+        last_vectors = Some((initial, from, to));
         let class = format!("{}:{}{}", category(&(a.min(b) as u64, a.max(b) as u64)), if moved(a) != moved(b) { "moved-vs-unmoved" } else if moved(a) { "both-moved" } else { "both-unmoved" }, if coupled { ":coupled" } else { "" });
         for &pool in &pools_for(made, if thorough() { 5 } else { 3 }) {
             let offered = guarded(|| in_pool(pool, || if through_shape { kws.non_colliding_offsets(&initial, &from, &to) } else { body.non_colliding_offsets(&initial, &from, &to, kin) }));
